@@ -27,8 +27,8 @@ for d in $demos; do
   mkdir -p $(dirname $v/$d); cp $src/$d $v/$d; cp $src/$d $out/$(echo $d | tr / _)
 done
 pkgs=$(for d in $demos; do echo ./$(dirname $d); done | sort -u)
-with=pass; for i in 1 2; do go test -mod=mod -vet=off -count=1 -timeout 10m $pkgs -run 'Demo|demo|ZZ|Zz|zz' >> $out/demo_with_change.log 2>&1 || with=fail; done
+with=pass; for i in 1 2; do go test -mod=mod -vet=off -count=1 -timeout 10m $pkgs -run "${RUNPAT:-Demo|demo|ZZ|Zz|zz}" >> $out/demo_with_change.log 2>&1 || with=fail; done
 git apply -R $out/patch.diff >>$log 2>&1
-without=pass; for i in 1 2; do go test -mod=mod -vet=off -count=1 -timeout 10m $pkgs -run 'Demo|demo|ZZ|Zz|zz' >> $out/demo_without_change.log 2>&1 || without=fail; done
+without=pass; for i in 1 2; do go test -mod=mod -vet=off -count=1 -timeout 10m $pkgs -run "${RUNPAT:-Demo|demo|ZZ|Zz|zz}" >> $out/demo_without_change.log 2>&1 || without=fail; done
 cd /; git -C /repo worktree remove --force $v
 echo "$name: build=$build suite_with_change=$suite demo_with_change=$with demo_without_change=$without demos=[$demos]" | tee -a $log
